@@ -317,3 +317,10 @@ func ContainsAnyEncoding(hay, needle []byte) string {
 }
 
 var _ = fmt.Sprintf
+
+// RetainedAll returns the plaintexts DecryptKey has handed out so far.
+func (k *SpyKMS) RetainedAll() []*Retained {
+	k.mu.Lock()
+	defer k.mu.Unlock()
+	return append([]*Retained(nil), k.Retained...)
+}
